@@ -714,6 +714,14 @@ func csvSoleWriter(c *Ctx) {
 				if callsNamed(in, "writeCSV") {
 					writeBlocks[b] = true
 				}
+				// a helper of the package that reaches the writer on every path through it
+				if call, ok := in.(ssa.CallInstruction); ok {
+					if g := call.Common().StaticCallee(); g != nil && g.Pkg == fn.Pkg && g != fn && len(g.Blocks) > 0 {
+						if _, calls := mustEffects(g, 0); calls["writeCSV"] {
+							writeBlocks[b] = true
+						}
+					}
+				}
 			}
 			if len(b.Instrs) == 0 {
 				continue
